@@ -1,7 +1,10 @@
 #!/usr/bin/env python3
 import json, os, sys
 sys.path.insert(0, os.path.dirname(os.path.abspath(__file__)))
-from registry import REG
+import glob
+REG = {}
+for f in sorted(glob.glob(os.path.join(os.path.dirname(os.path.abspath(__file__)), 'reg', 'C*.json'))):
+    REG[os.path.basename(f)[:-5]] = json.load(open(f))
 ROOT = os.path.dirname(os.path.dirname(os.path.abspath(__file__)))
 props = [json.loads(l) for l in open(os.path.join(ROOT, "properties.jsonl"))]
 NA = {}
